@@ -4,6 +4,7 @@
 From Coq Require Import ZArith List Bool Reals Lra Lia Classical.
 From Coquelicot Require Import Coquelicot.
 From SVP Require Import Base.Num Base.Cplx Base.Poly Model.Bezier Model.Extrema Proofs.ExtremaLemmas.
+From SVP Require Model.BezierN Proofs.Roots.    (* property C19: dedup_fixed and its theorems *)
 Import ListNotations.
 Local Open Scope R_scope.
 
@@ -12,11 +13,53 @@ Ltac numR :=
        sqrt_ cos_ sin_ tan_ atan_ pi_ hypot_ NumTR re im fst snd] in *.
 
 (* ================= polyroots model ================= *)
+(* the model of this file is the model of property C19 (Model/BezierN.v), for
+   both variants, over any carrier *)
+Section SameAsC19.
+  Context {K : Type} (N : Num K) (atol rtol : K).
+  Lemma pairs_combinations2 (l : list K) : pairs l = BezierN.combinations2 l.
+  Proof.
+    induction l as [|x r IH]; [reflexivity|]. cbn [pairs BezierN.combinations2]. rewrite IH. f_equal.
+    clear IH. induction r as [|y r IH]; [reflexivity|]. cbn [map BezierN.pairs_from]. now rewrite IH.
+  Qed.
+  Lemma dup_idx_close_pair_indices ps : forall i,
+      dup_idx N atol rtol i ps = BezierN.close_pair_indices N rtol atol i ps.
+  Proof.
+    induction ps as [|[a b] ps IH]; intros i; [reflexivity|].
+    cbn [dup_idx BezierN.close_pair_indices]. rewrite !IH. reflexivity.
+  Qed.
+  Lemma drop_idx_drop_indices d (l : list K) : forall i, drop_idx i d l = BezierN.drop_indices i d l.
+  Proof.
+    induction l as [|x l IH]; intros i; [reflexivity|]. cbn [drop_idx BezierN.drop_indices]. now rewrite !IH.
+  Qed.
+  Theorem dedup_same_as_C19 fixed l :
+    dedup N atol rtol fixed l = if fixed then BezierN.dedup_fixed N rtol atol l else BezierN.dedup_coded N rtol atol l.
+  Proof.
+    destruct fixed; [reflexivity|]. unfold dedup, dedup_coded, BezierN.dedup_coded.
+    now rewrite pairs_combinations2, dup_idx_close_pair_indices, drop_idx_drop_indices.
+  Qed.
+  Theorem polyroots_real_same_as_C19 fixed cond roots :
+    polyroots_real N atol rtol fixed cond roots = BezierN.polyroots N rtol atol fixed roots true cond.
+  Proof.
+    unfold polyroots_real, BezierN.polyroots. rewrite dedup_same_as_C19. destruct fixed; reflexivity.
+  Qed.
+End SameAsC19.
+
 Section RootsR.
   Variables (atol rtol : R).
   Notation isclose := (isclose NumR atol rtol).
+  (* premise that existed because of the index bug (fixed = false): NO two
+     surviving list positions are isclose, not even two copies of a double root *)
   Definition no_close_pairs (l : list R) : Prop :=
     forall a b, In (a, b) (pairs l) -> isclose a b = false.
+  (* genuine separation premise (fixed = true): surviving roots with DIFFERENT
+     values are not isclose; a root listed several times is harmless *)
+  Definition distinct_separated (l : list R) : Prop :=
+    forall a b, In (a, b) (pairs l) -> a <> b -> isclose a b = false.
+  Definition sep_ok (fixed : bool) (l : list R) : Prop :=
+    if fixed then distinct_separated l else no_close_pairs l.
+  Lemma no_close_pairs_sep_ok fixed l : no_close_pairs l -> sep_ok fixed l.
+  Proof. destruct fixed; cbn; auto. intros H a b Hin _. now apply H. Qed.
 
   Lemma dup_idx_nil ps : (forall a b, In (a, b) ps -> isclose a b = false) ->
     forall i, dup_idx NumR atol rtol i ps = [].
@@ -26,8 +69,8 @@ Section RootsR.
   Qed.
   Lemma drop_idx_nil (l : list R) : forall i, drop_idx i [] l = l.
   Proof. induction l as [|x l IH]; intros i; cbn; [reflexivity|]. now rewrite IH. Qed.
-  Lemma dedup_id l : no_close_pairs l -> dedup NumR atol rtol l = l.
-  Proof. intros H. unfold dedup. rewrite dup_idx_nil by exact H. apply drop_idx_nil. Qed.
+  Lemma dedup_id l : no_close_pairs l -> dedup NumR atol rtol false l = l.
+  Proof. intros H. unfold dedup, dedup_coded. rewrite dup_idx_nil by exact H. apply drop_idx_nil. Qed.
   Lemma drop_idx_sub d (l : list R) : forall i x, In x (drop_idx i d l) -> In x l.
   Proof.
     induction l as [|y l IH]; intros i x; cbn [drop_idx]; [auto|].
@@ -35,32 +78,68 @@ Section RootsR.
     - right; eapply IH; eauto.
     - destruct H; [now left | right; eapply IH; eauto].
   Qed.
+  Lemma dedup_sub fixed l x : In x (dedup NumR atol rtol fixed l) -> In x l.
+  Proof.
+    destruct fixed; cbn [dedup].
+    - apply Roots.dedup_fixed_incl.
+    - apply drop_idx_sub.
+  Qed.
 
   (* soundness: whatever is returned is the real part of an oracle root and
-     satisfies the condition (no premise) *)
-  Lemma polyroots_sound cond roots t :
-    In t (polyroots_real NumR atol rtol cond roots) ->
+     satisfies the condition (no premise, either variant) *)
+  Lemma polyroots_sound fixed cond roots t :
+    In t (polyroots_real NumR atol rtol fixed cond roots) ->
     cond t = true /\ exists r, In r roots /\ re r = t.
   Proof.
-    unfold polyroots_real, dedup. intros H. apply drop_idx_sub in H.
+    unfold polyroots_real. intros H. apply dedup_sub in H.
     apply filter_In in H. destruct H as [H Hc]. split; [exact Hc|].
     unfold real_roots in H. apply in_map_iff in H. destruct H as (r & E & Hr).
     apply filter_In in Hr. exists r. tauto.
   Qed.
 
-  (* completeness under the contract: the oracle lists the root (as an exactly
-     real number) and no two surviving roots are isclose *)
-  Lemma polyroots_complete cond roots t : 0 < atol ->
-    In (t, 0) roots -> cond t = true ->
-    no_close_pairs (filter cond (real_roots NumR atol rtol roots)) ->
-    In t (polyroots_real NumR atol rtol cond roots).
+  Lemma first_occurrence (x : R) l : In x l -> exists l1 l2, l = l1 ++ x :: l2 /\ ~ In x l1.
   Proof.
-    intros Ha Hin Hc Hsep. unfold polyroots_real. rewrite dedup_id by exact Hsep.
-    apply filter_In. split; [|exact Hc]. unfold real_roots.
-    apply in_map_iff. exists (t, 0). split; [reflexivity|]. apply filter_In. split; [exact Hin|].
-    unfold Extrema.isclose. numR. apply Rlt_b_true.
-    replace (0 - 0) with 0 by ring. unfold nabs. numR.
-    destruct (Rlt_b 0 0) eqn:E; [apply Rlt_b_true in E; lra|]. lra.
+    induction l as [|a l IH]; [intros []|]. intros H.
+    destruct (Req_EM_T a x) as [->|n].
+    - exists [], l. split; [reflexivity|intros []].
+    - destruct H as [H|H]; [contradiction|]. destruct (IH H) as (l1 & l2 & -> & Hn).
+      exists (a :: l1), l2. split; [reflexivity|]. intros [E|E]; auto.
+  Qed.
+  Lemma pairs_before (l1 : list R) x l2 y : In y l1 -> In (y, x) (pairs (l1 ++ x :: l2)).
+  Proof.
+    induction l1 as [|a l1 IH]; [intros []|]. intros [->|H]; cbn [app pairs]; apply in_or_app.
+    - left. apply in_map. apply in_or_app. right. now left.
+    - right. auto.
+  Qed.
+  Lemma isclose_refl t : 0 < atol -> 0 <= rtol -> isclose t t = true.
+  Proof.
+    intros Ha Hr. unfold Extrema.isclose. numR. apply Rlt_b_true.
+    replace (t - t) with 0 by ring. unfold nabs at 1. numR.
+    destruct (Rlt_b 0 0) eqn:E; [apply Rlt_b_true in E; lra|].
+    assert (0 <= nabs NumR t).
+    { unfold nabs. numR. destruct (Rlt_b t 0) eqn:E'; [apply Rlt_b_true in E'|apply Rlt_b_false in E']; lra. }
+    assert (0 <= rtol * nabs NumR t) by (apply Rmult_le_pos; auto). lra.
+  Qed.
+
+  (* completeness under the contract: the oracle lists the root (as an exactly
+     real number) and the separation premise of the variant holds *)
+  Lemma polyroots_complete fixed cond roots t : 0 < atol -> 0 <= rtol ->
+    In (t, 0) roots -> cond t = true ->
+    sep_ok fixed (filter cond (real_roots NumR atol rtol roots)) ->
+    In t (polyroots_real NumR atol rtol fixed cond roots).
+  Proof.
+    intros Ha Hr Hin Hc Hsep.
+    assert (HL : In t (filter cond (real_roots NumR atol rtol roots))).
+    { apply filter_In. split; [|exact Hc]. unfold real_roots.
+      apply in_map_iff. exists (t, 0). split; [reflexivity|]. apply filter_In. split; [exact Hin|].
+      cbn [im snd]. change (zero NumR) with 0. apply isclose_refl; auto. }
+    unfold polyroots_real. destruct fixed; cbn [sep_ok] in Hsep.
+    - destruct (first_occurrence _ _ HL) as (l1 & l2 & E & Hn). rewrite E in *. cbn [dedup].
+      destruct (Roots.dedup_fixed_keeps_isolated NumR rtol atol l1 t l2) as (o1 & o2 & Eo & _).
+      + intros y Hy. apply (Hsep y t); [now apply pairs_before|]. intros ->. contradiction.
+      + apply isclose_refl; auto.
+      + rewrite Eo. apply in_or_app. right. now left.
+    - rewrite dedup_id by exact Hsep. exact HL.
   Qed.
 End RootsR.
 
@@ -70,8 +149,8 @@ End RootsR.
 Definition oracle_ok (p : list R) (roots : list (Cplx R)) : Prop :=
   (exists s, peval NumR p s <> 0) ->
   forall t, 0 <= t <= 1 -> peval NumR p t = 0 -> In (t, 0) roots.
-Definition separated (atol rtol : R) (cond : R -> bool) (roots : list (Cplx R)) : Prop :=
-  no_close_pairs atol rtol (filter cond (real_roots NumR atol rtol roots)).
+Definition separated (fixed : bool) (atol rtol : R) (cond : R -> bool) (roots : list (Cplx R)) : Prop :=
+  sep_ok atol rtol fixed (filter cond (real_roots NumR atol rtol roots)).
 
 (* ================= Line ================= *)
 Lemma nminR a b : nmin NumR a b = Rmin a b.
@@ -146,25 +225,57 @@ Section Cubic.
     pose proof (Rle_0_sqr (denom * t - tau)) as Q. unfold Rsqr in Q. lra.
   Qed.
 
+  (* the repaired (cancellation-free) closed form computes the same two roots,
+     possibly in the other order *)
+  Lemma stable_roots_perm : denom <> 0 -> 0 <= delta ->
+    brm_roots NumR NumTR true a0 a1 a2 a3 = (r1, r2) \/ brm_roots NumR NumTR true a0 a1 a2 a3 = (r2, r1).
+  Proof.
+    intros Hd Hdl. pose proof (sqrt_sqrt delta Hdl) as Hs. pose proof (sqrt_pos delta) as Hp.
+    pose proof delta_identity as DI.
+    unfold brm_roots, brm_q, brm_r1, brm_r2, neqb. numR. set (s := sqrt delta) in *.
+    assert (ID : (tau - s) * (tau + s) = denom * (a0 - a1)) by (rewrite <- Hs in DI; lra).
+    destruct (Rle_b 0 tau) eqn:Et; [apply Rle_b_true in Et | apply Rle_b_false in Et].
+    - destruct (Req_b (tau + s) 0) eqn:Eq; cbn [negb].
+      + apply Req_b_true in Eq. assert (tau = 0) by lra. assert (s = 0) by lra.
+        left. f_equal; field_simplify_eq; auto; lra.
+      + assert (Hq : tau + s <> 0) by (intros Q; apply Req_b_true in Q; congruence).
+        left. f_equal. field_simplify_eq; [lra | split; auto].
+    - assert (Hq : tau - s <> 0) by lra.
+      destruct (Req_b (tau - s) 0) eqn:Eq; cbn [negb]; [apply Req_b_true in Eq; contradiction|].
+      right. f_equal. field_simplify_eq; [lra | split; auto].
+  Qed.
+  Lemma cubic_roots_gen stable : denom <> 0 -> 0 <= delta ->
+    forall t, dX t = 0 <-> (t = fst (brm_roots NumR NumTR stable a0 a1 a2 a3)
+                            \/ t = snd (brm_roots NumR NumTR stable a0 a1 a2 a3)).
+  Proof.
+    intros Hd Hdl t. rewrite (cubic_roots_iff Hd Hdl t). destruct stable.
+    - destruct (stable_roots_perm Hd Hdl) as [E|E]; rewrite E; cbn [fst snd]; tauto.
+    - cbn [brm_roots fst snd]. tauto.
+  Qed.
+
   (* candidates of the closed form contain every interior critical point *)
-  Lemma closed_cands_complete : denom <> 0 ->
-    forall t, 0 < t < 1 -> dX t = 0 -> In t (tl (tl (brm_closed_cands NumR NumTR a0 a1 a2 a3))).
+  Lemma closed_cands_complete stable : denom <> 0 ->
+    forall t, 0 < t < 1 -> dX t = 0 -> In t (tl (tl (brm_closed_cands NumR NumTR stable a0 a1 a2 a3))).
   Proof.
     intros Hd t Ht H0. unfold brm_closed_cands. cbn [app tl].
-    destruct (leb NumR (zero NumR) delta) eqn:E; numR.
-    - apply Rle_b_true in E. apply (cubic_roots_iff Hd E) in H0.
+    destruct (leb NumR (zero NumR) delta) eqn:E; cbn [leb NumR zero] in E.
+    - apply Rle_b_true in E. apply (cubic_roots_gen stable Hd E) in H0.
       destruct H0 as [E1|E2].
       + rewrite <- E1. rewrite (proj2 (lt01_R t) Ht). apply in_or_app; left; now left.
       + rewrite <- E2. rewrite (proj2 (lt01_R t) Ht). apply in_or_app; right; now left.
     - apply Rle_b_false in E. exfalso. exact (cubic_no_root E t H0).
   Qed.
-  Lemma closed_cands_01 : forall c, In c (brm_closed_cands NumR NumTR a0 a1 a2 a3) -> 0 <= c <= 1.
+  Lemma closed_cands_01 stable :
+    forall c, In c (brm_closed_cands NumR NumTR stable a0 a1 a2 a3) -> 0 <= c <= 1.
   Proof.
-    intros c. unfold brm_closed_cands. cbn [app In]. numR. intros [<-|[<-|H]]; try lra.
-    destruct (Rle_b 0 delta); [|destruct H].
+    intros c. unfold brm_closed_cands. cbn [app In]. change (zero NumR) with 0. change (one NumR) with 1.
+    intros [<-|[<-|H]]; try lra.
+    destruct (leb NumR 0 delta); [|destruct H].
     apply in_app_or in H. destruct H as [H|H].
-    - destruct (lt01 NumR r1) eqn:E; [|destruct H]. destruct H as [<-|[]]. apply lt01_R in E. lra.
-    - destruct (lt01 NumR r2) eqn:E; [|destruct H]. destruct H as [<-|[]]. apply lt01_R in E. lra.
+    - destruct (lt01 NumR (fst (brm_roots NumR NumTR stable a0 a1 a2 a3))) eqn:E; [|destruct H].
+      destruct H as [<-|[]]. apply lt01_R in E. lra.
+    - destruct (lt01 NumR (snd (brm_roots NumR NumTR stable a0 a1 a2 a3))) eqn:E; [|destruct H].
+      destruct H as [<-|[]]. apply lt01_R in E. lra.
   Qed.
 
   (* coefficients of the polynomial handed to np.roots when denom = 0
@@ -177,13 +288,14 @@ Section Cubic.
   Lemma cubic_dcoeffs_eval t : peval NumR (pderiv NumR cubic_coeffs) t = dX t.
   Proof. unfold cubic_coeffs, peval, dX, brm_tau, brm_denom. cbn. ring. Qed.
 
-  Variables (atol rtol : R) (roots : list (Cplx R)).
+  Variables (stable fixed : bool) (atol rtol : R) (roots : list (Cplx R)).
   Hypothesis Hatol : 0 < atol.
+  Hypothesis Hrtol : 0 <= rtol.
   Definition coord_ok : Prop :=
-    denom <> 0 \/ (oracle_ok (pderiv NumR cubic_coeffs) roots /\ separated atol rtol (le01 NumR) roots).
+    denom <> 0 \/ (oracle_ok (pderiv NumR cubic_coeffs) roots /\ separated fixed atol rtol (le01 NumR) roots).
 
   Lemma brm_cands_shape :
-    exists cs, brm_cands NumR NumTR atol rtol a0 a1 a2 a3 roots = 0 :: 1 :: cs.
+    exists cs, brm_cands NumR NumTR stable fixed atol rtol a0 a1 a2 a3 roots = 0 :: 1 :: cs.
   Proof.
     unfold brm_cands. destruct (neqb NumR denom (zero NumR)).
     - unfold brm_closed_cands. cbn [app]. eexists; reflexivity.
@@ -192,7 +304,7 @@ Section Cubic.
 
   Lemma brm_cands_complete : coord_ok ->
     (exists s, dX s <> 0) -> forall t, 0 < t < 1 -> dX t = 0 ->
-    In t (tl (tl (brm_cands NumR NumTR atol rtol a0 a1 a2 a3 roots))).
+    In t (tl (tl (brm_cands NumR NumTR stable fixed atol rtol a0 a1 a2 a3 roots))).
   Proof.
     intros Hok Hnz t Ht H0. unfold brm_cands, neqb. numR.
     destruct (Req_b denom 0) eqn:E; cbn [negb].
@@ -204,7 +316,7 @@ Section Cubic.
     - assert (Hd : denom <> 0) by (intros Q; apply Req_b_true in Q; congruence).
       apply closed_cands_complete; auto.
   Qed.
-  Lemma brm_cands_01 : forall c, In c (brm_cands NumR NumTR atol rtol a0 a1 a2 a3 roots) -> 0 <= c <= 1.
+  Lemma brm_cands_01 : forall c, In c (brm_cands NumR NumTR stable fixed atol rtol a0 a1 a2 a3 roots) -> 0 <= c <= 1.
   Proof.
     intros c. unfold brm_cands. destruct (neqb NumR denom (zero NumR)).
     - apply closed_cands_01.
@@ -213,7 +325,7 @@ Section Cubic.
   Qed.
 
   Lemma brm_contains : coord_ok -> forall t, 0 <= t <= 1 ->
-    let '(mn, mx) := bezier_real_minmax4 NumR NumTR atol rtol a0 a1 a2 a3 roots in mn <= X t <= mx.
+    let '(mn, mx) := bezier_real_minmax4 NumR NumTR stable fixed atol rtol a0 a1 a2 a3 roots in mn <= X t <= mx.
   Proof.
     intros Hok t Ht. unfold bezier_real_minmax4.
     destruct brm_cands_shape as (cs & E). pose proof (brm_cands_complete Hok) as Hc.
@@ -221,7 +333,7 @@ Section Cubic.
     apply (@extreme_at_candidates_nz X dX bpoint4_derivable cs); auto.
   Qed.
   Lemma brm_tight :
-    let '(mn, mx) := bezier_real_minmax4 NumR NumTR atol rtol a0 a1 a2 a3 roots in
+    let '(mn, mx) := bezier_real_minmax4 NumR NumTR stable fixed atol rtol a0 a1 a2 a3 roots in
     (exists t, 0 <= t <= 1 /\ mn = X t) /\ (exists t, 0 <= t <= 1 /\ mx = X t).
   Proof.
     unfold bezier_real_minmax4. pose proof brm_cands_01 as H01.
@@ -234,13 +346,14 @@ End Cubic.
 
 (* ================= generic polynomial path (quadratics, as coded) ================= *)
 Section PolyPath.
-  Variables (atol rtol : R) (p : list R) (roots : list (Cplx R)).
+  Variables (fixed : bool) (atol rtol : R) (p : list R) (roots : list (Cplx R)).
   Hypothesis Hatol : 0 < atol.
+  Hypothesis Hrtol : 0 <= rtol.
   Definition poly_ok : Prop :=
-    oracle_ok (pderiv NumR p) roots /\ separated atol rtol (lt01 NumR) roots.
+    oracle_ok (pderiv NumR p) roots /\ separated fixed atol rtol (lt01 NumR) roots.
 
   Lemma poly_contains : poly_ok -> forall t, 0 <= t <= 1 ->
-    let '(mn, mx) := poly_minmax NumR atol rtol p roots in mn <= peval NumR p t <= mx.
+    let '(mn, mx) := poly_minmax NumR fixed atol rtol p roots in mn <= peval NumR p t <= mx.
   Proof.
     intros [Hor Hsep] t Ht. unfold poly_minmax. cbn [app map].
     apply (@extreme_at_candidates_nz (peval NumR p) (peval NumR (pderiv NumR p)) (peval_derivable p)); auto.
@@ -249,11 +362,11 @@ Section PolyPath.
     - now apply lt01_R.
   Qed.
   Lemma poly_tight :
-    let '(mn, mx) := poly_minmax NumR atol rtol p roots in
+    let '(mn, mx) := poly_minmax NumR fixed atol rtol p roots in
     (exists t, 0 <= t <= 1 /\ mn = peval NumR p t) /\ (exists t, 0 <= t <= 1 /\ mx = peval NumR p t).
   Proof.
     unfold poly_minmax. cbn [app].
-    set (cs := polyroots_open01 NumR atol rtol roots).
+    set (cs := polyroots_open01 NumR atol rtol fixed roots).
     assert (H01 : forall c, In c (zero NumR :: one NumR :: cs) -> 0 <= c <= 1).
     { intros c [<-|[<-|H]]; numR; try lra. apply polyroots_sound in H. destruct H as [H _].
       apply lt01_R in H. lra. }
@@ -278,67 +391,68 @@ Lemma quad_point_im s c e t :
 Proof. destruct s, c, e. unfold quad_point, quad_coeffs, peval. cbn [fold_left]. cunfold. numR. ring. Qed.
 
 Section Segments.
-  Variables (atol rtol : R).
+  Variables (stable fixed : bool) (atol rtol : R).
   Hypothesis Hatol : 0 < atol.
+  Hypothesis Hrtol : 0 <= rtol.
 
   Theorem cubic_bbox_contains p0 p1 p2 p3 rx ry :
-    coord_ok (re p0) (re p1) (re p2) (re p3) atol rtol rx ->
-    coord_ok (im p0) (im p1) (im p2) (im p3) atol rtol ry ->
+    coord_ok (re p0) (re p1) (re p2) (re p3) fixed atol rtol rx ->
+    coord_ok (im p0) (im p1) (im p2) (im p3) fixed atol rtol ry ->
     forall t, 0 <= t <= 1 ->
-    let '(xmin, xmax, ymin, ymax) := cubic_bbox NumR NumTR atol rtol p0 p1 p2 p3 rx ry in
+    let '(xmin, xmax, ymin, ymax) := cubic_bbox NumR NumTR stable fixed atol rtol p0 p1 p2 p3 rx ry in
     xmin <= re (cubic_point NumR p0 p1 p2 p3 t) <= xmax /\
     ymin <= im (cubic_point NumR p0 p1 p2 p3 t) <= ymax.
   Proof.
     intros Hx Hy t Ht. unfold cubic_bbox.
-    pose proof (brm_contains _ _ _ _ _ _ _ Hatol Hx t Ht) as Bx.
-    pose proof (brm_contains _ _ _ _ _ _ _ Hatol Hy t Ht) as By.
-    destruct (bezier_real_minmax4 NumR NumTR atol rtol (re p0) (re p1) (re p2) (re p3) rx) as [xmin xmax].
-    destruct (bezier_real_minmax4 NumR NumTR atol rtol (im p0) (im p1) (im p2) (im p3) ry) as [ymin ymax].
+    pose proof (brm_contains _ _ _ _ stable _ _ _ _ Hatol Hrtol Hx t Ht) as Bx.
+    pose proof (brm_contains _ _ _ _ stable _ _ _ _ Hatol Hrtol Hy t Ht) as By.
+    destruct (bezier_real_minmax4 NumR NumTR stable fixed atol rtol (re p0) (re p1) (re p2) (re p3) rx) as [xmin xmax].
+    destruct (bezier_real_minmax4 NumR NumTR stable fixed atol rtol (im p0) (im p1) (im p2) (im p3) ry) as [ymin ymax].
     rewrite cubic_point_re, cubic_point_im. tauto.
   Qed.
   Theorem cubic_bbox_tight p0 p1 p2 p3 rx ry :
-    let '(xmin, xmax, ymin, ymax) := cubic_bbox NumR NumTR atol rtol p0 p1 p2 p3 rx ry in
+    let '(xmin, xmax, ymin, ymax) := cubic_bbox NumR NumTR stable fixed atol rtol p0 p1 p2 p3 rx ry in
     (exists t, 0 <= t <= 1 /\ xmin = re (cubic_point NumR p0 p1 p2 p3 t)) /\
     (exists t, 0 <= t <= 1 /\ xmax = re (cubic_point NumR p0 p1 p2 p3 t)) /\
     (exists t, 0 <= t <= 1 /\ ymin = im (cubic_point NumR p0 p1 p2 p3 t)) /\
     (exists t, 0 <= t <= 1 /\ ymax = im (cubic_point NumR p0 p1 p2 p3 t)).
   Proof.
     unfold cubic_bbox.
-    pose proof (brm_tight (re p0) (re p1) (re p2) (re p3) atol rtol rx) as Bx.
-    pose proof (brm_tight (im p0) (im p1) (im p2) (im p3) atol rtol ry) as By.
-    destruct (bezier_real_minmax4 NumR NumTR atol rtol (re p0) (re p1) (re p2) (re p3) rx) as [xmin xmax].
-    destruct (bezier_real_minmax4 NumR NumTR atol rtol (im p0) (im p1) (im p2) (im p3) ry) as [ymin ymax].
+    pose proof (brm_tight (re p0) (re p1) (re p2) (re p3) stable fixed atol rtol rx) as Bx.
+    pose proof (brm_tight (im p0) (im p1) (im p2) (im p3) stable fixed atol rtol ry) as By.
+    destruct (bezier_real_minmax4 NumR NumTR stable fixed atol rtol (re p0) (re p1) (re p2) (re p3) rx) as [xmin xmax].
+    destruct (bezier_real_minmax4 NumR NumTR stable fixed atol rtol (im p0) (im p1) (im p2) (im p3) ry) as [ymin ymax].
     destruct Bx as [(t1 & H1 & E1) (t2 & H2 & E2)]. destruct By as [(t3 & H3 & E3) (t4 & H4 & E4)].
     repeat split; [exists t1|exists t2|exists t3|exists t4]; rewrite ?cubic_point_re, ?cubic_point_im; auto.
   Qed.
 
   Theorem quad_bbox_contains p0 p1 p2 rx ry :
-    poly_ok atol rtol (quad_coeffs NumR (re p0) (re p1) (re p2)) rx ->
-    poly_ok atol rtol (quad_coeffs NumR (im p0) (im p1) (im p2)) ry ->
+    poly_ok fixed atol rtol (quad_coeffs NumR (re p0) (re p1) (re p2)) rx ->
+    poly_ok fixed atol rtol (quad_coeffs NumR (im p0) (im p1) (im p2)) ry ->
     forall t, 0 <= t <= 1 ->
-    let '(xmin, xmax, ymin, ymax) := quad_bbox NumR atol rtol p0 p1 p2 rx ry in
+    let '(xmin, xmax, ymin, ymax) := quad_bbox NumR fixed atol rtol p0 p1 p2 rx ry in
     xmin <= re (quad_point NumR p0 p1 p2 t) <= xmax /\
     ymin <= im (quad_point NumR p0 p1 p2 t) <= ymax.
   Proof.
     intros Hx Hy t Ht. unfold quad_bbox, poly_bbox.
-    pose proof (poly_contains _ _ _ _ Hatol Hx t Ht) as Bx.
-    pose proof (poly_contains _ _ _ _ Hatol Hy t Ht) as By.
-    destruct (poly_minmax NumR atol rtol (quad_coeffs NumR (re p0) (re p1) (re p2)) rx) as [xmin xmax].
-    destruct (poly_minmax NumR atol rtol (quad_coeffs NumR (im p0) (im p1) (im p2)) ry) as [ymin ymax].
+    pose proof (poly_contains _ _ _ _ _ Hatol Hrtol Hx t Ht) as Bx.
+    pose proof (poly_contains _ _ _ _ _ Hatol Hrtol Hy t Ht) as By.
+    destruct (poly_minmax NumR fixed atol rtol (quad_coeffs NumR (re p0) (re p1) (re p2)) rx) as [xmin xmax].
+    destruct (poly_minmax NumR fixed atol rtol (quad_coeffs NumR (im p0) (im p1) (im p2)) ry) as [ymin ymax].
     rewrite quad_point_re, quad_point_im. tauto.
   Qed.
   Theorem quad_bbox_tight p0 p1 p2 rx ry :
-    let '(xmin, xmax, ymin, ymax) := quad_bbox NumR atol rtol p0 p1 p2 rx ry in
+    let '(xmin, xmax, ymin, ymax) := quad_bbox NumR fixed atol rtol p0 p1 p2 rx ry in
     (exists t, 0 <= t <= 1 /\ xmin = re (quad_point NumR p0 p1 p2 t)) /\
     (exists t, 0 <= t <= 1 /\ xmax = re (quad_point NumR p0 p1 p2 t)) /\
     (exists t, 0 <= t <= 1 /\ ymin = im (quad_point NumR p0 p1 p2 t)) /\
     (exists t, 0 <= t <= 1 /\ ymax = im (quad_point NumR p0 p1 p2 t)).
   Proof.
     unfold quad_bbox, poly_bbox.
-    pose proof (poly_tight atol rtol (quad_coeffs NumR (re p0) (re p1) (re p2)) rx) as Bx.
-    pose proof (poly_tight atol rtol (quad_coeffs NumR (im p0) (im p1) (im p2)) ry) as By.
-    destruct (poly_minmax NumR atol rtol (quad_coeffs NumR (re p0) (re p1) (re p2)) rx) as [xmin xmax].
-    destruct (poly_minmax NumR atol rtol (quad_coeffs NumR (im p0) (im p1) (im p2)) ry) as [ymin ymax].
+    pose proof (poly_tight fixed atol rtol (quad_coeffs NumR (re p0) (re p1) (re p2)) rx) as Bx.
+    pose proof (poly_tight fixed atol rtol (quad_coeffs NumR (im p0) (im p1) (im p2)) ry) as By.
+    destruct (poly_minmax NumR fixed atol rtol (quad_coeffs NumR (re p0) (re p1) (re p2)) rx) as [xmin xmax].
+    destruct (poly_minmax NumR fixed atol rtol (quad_coeffs NumR (im p0) (im p1) (im p2)) ry) as [ymin ymax].
     destruct Bx as [(t1 & H1 & E1) (t2 & H2 & E2)]. destruct By as [(t3 & H3 & E3) (t4 & H4 & E4)].
     repeat split; [exists t1|exists t2|exists t3|exists t4]; rewrite ?quad_point_re, ?quad_point_im; auto.
   Qed.
